@@ -1,5 +1,6 @@
 """C03 - Episodes are never mixed and samples keep their temporal order."""
 import json
+import zlib
 
 import numpy as np
 
@@ -318,6 +319,182 @@ def route_categories(case):
     return [f"routes lift*/retract* x episode_feature flag (fitted with and without): {dep}, {'>=2 episodes' if n_eps >= 2 else '1 episode'}"]
 
 
+# ----------------------------------------------------------------------------- the argument PASSING forms of fit
+# `fit(X, y=None, n_inputs=0, episode_feature=False)` (also KoopmanPipeline.fit_transformers, and fit_transform, which forwards
+# its keyword arguments to fit) may be called with the fit parameters by keyword (any order), by position, mixed, with `y`
+# given or omitted, with `X` by keyword, and with a parameter left out when its value is the default. Whatever the form, the
+# estimator must end up fitted with the episode feature / number of inputs THE CALLER STATED (expected values come from the
+# case, not from the estimator), and every per-episode result must be the one of the plain keyword call.
+
+def call_forms(X, nu, ep):
+    """[(name, args, kwargs)] - every way the signature allows to say `n_inputs=nu, episode_feature=ep`"""
+    forms = [
+        ('fit(X, n_inputs=n, episode_feature=e)', (X,), {'n_inputs': nu, 'episode_feature': ep}),
+        ('fit(X, episode_feature=e, n_inputs=n)', (X,), {'episode_feature': ep, 'n_inputs': nu}),
+        ('fit(X, None, n, e)', (X, None, nu, ep), {}),
+        ('fit(X, None, n, episode_feature=e)', (X, None, nu), {'episode_feature': ep}),
+        ('fit(X, None, n_inputs=n, episode_feature=e)', (X, None), {'n_inputs': nu, 'episode_feature': ep}),
+        ('fit(X, y=None, n_inputs=n, episode_feature=e)', (X,), {'y': None, 'n_inputs': nu, 'episode_feature': ep}),
+        ('fit(X=X, n_inputs=n, episode_feature=e)', (), {'X': X, 'n_inputs': nu, 'episode_feature': ep}),
+        ('fit(X=X, y=None, episode_feature=e, n_inputs=n)', (), {'X': X, 'y': None, 'episode_feature': ep, 'n_inputs': nu}),
+    ]
+    if not ep:
+        forms.append(('fit(X, None, n)  [episode_feature left at its default False]', (X, None, nu), {}))
+        forms.append(('fit(X, n_inputs=n)  [episode_feature left at its default False]', (X,), {'n_inputs': nu}))
+    if int(nu) == 0:
+        forms.append(('fit(X, episode_feature=e)  [n_inputs left at its default 0]', (X,), {'episode_feature': ep}))
+        if not ep:
+            forms.append(('fit(X)  [both left at their defaults]', (X,), {}))
+            forms.append(('fit(X, None)  [both left at their defaults]', (X, None), {}))
+    return forms
+
+
+def call_hosts(spec):
+    """[(description, constructor, methods)] - the estimators whose fit-like methods take the fit parameters: the case's own
+    estimator, and (for a lifting function / SplitPipeline) a KoopmanPipeline that holds it as its only stage"""
+    if spec['k'] == 'pipe':
+        return [('KoopmanPipeline', lambda: pipes.build(spec), ('fit_transformers', 'fit', 'fit_transform'))]
+    name = 'SplitPipeline' if spec['k'] == 'split' else 'lifting function'
+    wrap = lambda: pykoop.KoopmanPipeline(lifting_functions=[('w', pipes.build(spec))], regressor=pykoop.DataRegressor())
+    return [(name, lambda: pipes.build(spec), ('fit', 'fit_transform')),
+            ('KoopmanPipeline around the ' + name, wrap, ('fit_transformers', 'fit'))]
+
+
+def _per_episode(est, X, ep, tol):
+    """the property itself on ONE fitted estimator: transform / inverse_transform of the whole matrix, grouped by the labels
+    of the DATA, are what each episode alone gives"""
+    e = 1 if ep else 0
+    Xt = np.asarray(est.transform(X))
+    eps = st.episodes(X, ep)
+    want_rows = {}
+    for l, Xe in eps.items():
+        Ta = np.asarray(est.transform(st.ref_combine([(l, Xe)], ep)))
+        want_rows[l] = Ta
+    n_want = sum(T.shape[0] for T in want_rows.values())
+    if Xt.shape[0] != n_want:
+        return (f'transform of the whole matrix has {Xt.shape[0]} rows, the episodes one at a time give '
+                f'{[want_rows[l].shape[0] for l in sorted(want_rows)]} (sum {n_want}): lifted rows combine samples of different episodes')
+    try:
+        eps_t = st.episodes(Xt, ep)
+    except Exception:
+        return 'the label column of transform(X) does not hold integer labels'
+    if ep and not all(float(v).is_integer() for v in np.asarray(Xt, dtype=float)[:, 0]):
+        return 'the label column of transform(X) does not hold the labels of the data'
+    if set(eps_t) != set(eps):
+        return f'transform(X) returns labels {sorted(eps_t)}, the data has {sorted(eps)}'
+    for l in eps:
+        Ta = want_rows[l][:, e:]
+        if Ta.shape != eps_t[l].shape or not np.allclose(Ta, eps_t[l], rtol=tol, atol=tol):
+            return f'episode {l}: transform of the whole matrix differs from transform of the episode alone'
+    Xr = np.asarray(est.inverse_transform(Xt))
+    eps_r = st.episodes(Xr, ep)
+    for l in eps_t:
+        Ra = np.asarray(est.inverse_transform(st.ref_combine([(l, eps_t[l])], ep)))[:, e:]
+        if l not in eps_r or Ra.shape != eps_r[l].shape or not np.allclose(Ra, eps_r[l], rtol=tol, atol=tol):
+            return f'episode {l}: inverse_transform of the whole matrix differs from the episode alone'
+    return None
+
+
+def _call_forms_oracle(case, tol=1e-12):
+    spec, nx, nu, ep = case['spec'], case['nx'], case['nu'], bool(case['ep'])
+    X = st.X_of(case)
+    n_arg, e_arg = pipes.arg_forms(spec, nu, ep)
+    forms = call_forms(X, n_arg, e_arg)
+    try:
+        ref = pipes.fit(spec, X, nu, ep)              # the documented keyword call (checked by `_oracle` above)
+        Xt_ref = np.asarray(ref.transform(X))
+        Xr_ref = np.asarray(ref.inverse_transform(Xt_ref))
+    except Exception:
+        return None
+    if any(Xe.shape[0] < ref.min_samples_ for Xe in st.episodes(X, ep).values()):
+        return None                 # an episode too short to be lifted: outside the statement
+    pick = zlib.crc32(json.dumps([spec, nx, nu, ep, len(case['rows'])], sort_keys=True, default=str).encode())
+    for h, (host, make, methods) in enumerate(call_hosts(spec)):
+        if h > 0:
+            methods = methods[pick % len(methods):][:1]        # the wrapping pipeline: one of its fit methods per case
+        for k, method in enumerate(methods):
+            usable = [f for f in forms if not (method == 'fit_transform' and len(f[1]) > 2)]
+            # (fit_transform(X, y=None, **fit_params): the fit parameters are keyword-only there)
+            if h == 0 and k == 0:
+                todo = usable                   # the case's own estimator, its main fit method: every form
+            else:
+                # the other methods / hosts: always one form with the fit parameters BY POSITION (all of them, or n_inputs only;
+                # where the signature allows it) plus one more form, both chosen by the case, so that every form meets every
+                # method over the population
+                by_pos = [f for f in usable if len(f[1]) > 2][:2]
+                todo = by_pos[(pick + h + k) % 2:][:1] + [usable[(pick // 2 + 7 * h + k) % len(usable)]]
+                todo = [f for i, f in enumerate(todo) if f[0] not in [g[0] for g in todo[:i]]]
+            for name, args, kwargs in todo:
+                call = name.replace('fit(', method + '(', 1)
+                where = f'{host}.{call} with n={nu}, e={ep}'
+                est = make()
+                try:
+                    out = getattr(est, method)(*args, **kwargs)
+                except Exception as ex:
+                    try:
+                        getattr(make(), method)(X, n_inputs=n_arg, episode_feature=e_arg)
+                    except Exception:
+                        break                   # this host / method does not accept the data even by keyword: nothing to compare
+                    return f'{where}: raised {type(ex).__name__}: {str(ex)[:160]} (the keyword call is accepted)'
+                if method == 'fit_transform':
+                    out = np.asarray(out)
+                    if out.shape != Xt_ref.shape or not np.allclose(out, Xt_ref, rtol=tol, atol=tol, equal_nan=True):
+                        return (f'{where}: returned {out.shape}, fit(X, n_inputs=n, episode_feature=e).transform(X) gives '
+                                f'{Xt_ref.shape}' + ('' if out.shape != Xt_ref.shape else ' with other values'))
+                elif out is not est:
+                    return f'{where}: did not return the estimator'
+                # what the caller stated (from the case, not from any estimator)
+                wrong = []
+                try:
+                    if bool(est.episode_feature_) != ep:
+                        wrong.append(f'episode_feature_={est.episode_feature_!r} (caller said {ep})')
+                    if int(est.n_inputs_in_) != nu:
+                        wrong.append(f'n_inputs_in_={est.n_inputs_in_!r} (caller said {nu})')
+                    if int(est.n_states_in_) != nx:
+                        wrong.append(f'n_states_in_={est.n_states_in_!r} (data has {nx} states)')
+                    if int(est.min_samples_) != int(ref.min_samples_):
+                        wrong.append(f'min_samples_={est.min_samples_!r} (keyword call: {ref.min_samples_})')
+                except AttributeError as ex:
+                    wrong.append(f'fitted attribute missing: {ex}')
+                differs = None
+                try:
+                    Xt = np.asarray(est.transform(X))
+                    if Xt.shape != Xt_ref.shape or not np.allclose(Xt, Xt_ref, rtol=tol, atol=tol, equal_nan=True):
+                        differs = (f'transform(X) has shape {Xt.shape}, after the keyword call {Xt_ref.shape}'
+                                   + ('' if Xt.shape != Xt_ref.shape else ' with other values'))
+                    else:
+                        Xr = np.asarray(est.inverse_transform(Xt_ref))
+                        if Xr.shape != Xr_ref.shape or not np.allclose(Xr, Xr_ref, rtol=tol, atol=tol, equal_nan=True):
+                            differs = (f'inverse_transform has shape {Xr.shape}, after the keyword call {Xr_ref.shape}'
+                                       + ('' if Xr.shape != Xr_ref.shape else ' with other values'))
+                except Exception as ex:
+                    differs = f'transform / inverse_transform raised {type(ex).__name__}: {str(ex)[:160]} (fine after the keyword call)'
+                if wrong or differs:
+                    direct = None
+                    try:
+                        direct = _per_episode(est, X, ep, tol)
+                    except Exception as ex:
+                        direct = f'per-episode comparison raised {type(ex).__name__}: {str(ex)[:120]}'
+                    parts = [p for p in (direct, '; '.join(wrong) if wrong else None, differs) if p]
+                    return f'{where}: ' + ' | '.join(parts)
+    return None
+
+
+def call_forms_oracle(case, tol=1e-12):
+    try:
+        return _call_forms_oracle(case, tol)
+    except Exception as ex:
+        return f'fit call forms: {type(ex).__name__}: {ex}'
+
+
+def call_form_categories(case):
+    """coverage keys of the call-form oracle for one case"""
+    dep = 'episode-dependent stages' if pipes.loss(case['spec']) > 0 else 'sample-wise stages'
+    what = f"{'episode feature' if case['ep'] else 'no episode feature'}, {'inputs' if case['nu'] else 'no inputs'}"
+    hosts = ' + '.join(h for h, _, _ in call_hosts(case['spec']))
+    return [f'fit call forms (keyword / positional / mixed / defaults omitted) on {hosts}: {dep}, {what}']
+
+
 def rounding_noise(case):
     """how far rounding-level changes of the data (relative / absolute 1e-15 and 1e-14: a few units in the last place) move
     the implementation's OWN lifted output, relative to max(1, |value|). A lifting with a large gain (a Nystroem map fitted
@@ -350,7 +527,7 @@ def oracle(case, est=None):
             why = _oracle(case, est, tol)
         except Exception as ex:
             return f'transform / inverse_transform raised {type(ex).__name__}: {ex}'
-        return why or routes_oracle(case, tol)
+        return why or routes_oracle(case, tol) or call_forms_oracle(case, tol)
     why = at(1e-12)
     if why:
         # every comparison is made at 1e-12. Only where that FAILS and the measured rounding noise of the lifting itself
@@ -381,7 +558,11 @@ def run(ctx):
                 'inverse_transform, exact values, and the episode utilities verbatim on integer data; every case is also '
                 'sent through the convenience routes lift / lift_state / lift_input / retract / retract_state / retract_input '
                 'with episode_feature = True, False and None on an estimator fitted WITH and one fitted WITHOUT an episode '
-                'feature (unlabelled cases are cut into two episodes labelled 3, 1); '
+                'feature (unlabelled cases are cut into two episodes labelled 3, 1); every case is also fitted through every '
+                'argument PASSING form the signature fit(X, y=None, n_inputs=0, episode_feature=False) allows (keywords in either '
+                'order, all positional fit(X, None, n, e), mixed, y / X by keyword, defaults left out) on its own estimator, '
+                'and through positional + rotating forms of fit_transform and of fit / fit_transformers of a KoopmanPipeline '
+                'holding it; '
                 'non-trivial = at least one stage and two rows')
     ctx.explanation = ('theorems C03_* (matrix-level flow refines the per-episode meaning for every layout; slice '
                        'equivariance / window locality; utilities act per episode); correspondence on row '
@@ -389,7 +570,12 @@ def run(ctx):
                        'implementation with float data (rtol 1e-12); route oracle: for every route x flag x fitted-flag '
                        'combination the rows returned for a label equal that episode alone through transform / '
                        'inverse_transform in the estimator\'s own format (padding / stripping as documented), same labels, '
-                       'same row counts, and an unlabelled block is lifted as one episode; values are compared at 1e-12, and only where '
+                       'same row counts, and an unlabelled block is lifted as one episode; call-form oracle: after every call form '
+                       'episode_feature_ / n_inputs_in_ / n_states_in_ equal what the CALLER stated (taken from the case), '
+                       'transform / inverse_transform (and the value fit_transform returns) equal those after the keyword call, '
+                       'and on any difference the per-episode-vs-whole statement is evaluated on that estimator (row counts, '
+                       'labels, values per label); a form that raises while the keyword call is accepted is a violation; '
+                       'values are compared at 1e-12, and only where '
                        'that fails AND the measured rounding noise of the fitted lifting (output movement under 1e-15 / 1e-14 '
                        'changes of the data) exceeds 1e-13 are they compared at 100 x that noise (at most 1e-6); shapes, '
                        'labels and row counts are always exact')
@@ -467,7 +653,7 @@ def run(ctx):
                     ctx.mismatch(f'utility {kind}: {why}', c, None, rep[:120])
                     bad.append(c)
         fc = st.float_case(ctx.rng, c)
-        for key in route_categories(fc):
+        for key in route_categories(fc) + call_form_categories(fc):
             ctx.count(key)
         why = oracle(fc)
         if why:
